@@ -90,7 +90,7 @@ class FlatLine(Adapter):
 
     def spec(self, case):
         """flat_spec with the exact step of the axis (meaningful on regular axes; in the domain of
-        flat_refines when the step is a whole number D >= 1 of seconds).  Irregular axes: the
+        flat_refines when the step is positive).  Irregular axes: the
         first step, or 1, only so that the expression is well formed (such cases are out of domain)."""
         D = step_of(case)
         if D is None or D <= 0:
@@ -102,10 +102,10 @@ class FlatLine(Adapter):
         return property_expected(case)
 
     def in_domain(self, case):
-        """regular axis whose step is a whole number D >= 1 of seconds, as many time stamps as
+        """regular axis with any positive step (whole seconds, fractional, sub-second), as many time stamps as
         values, non-negative durations (any length)"""
         D = step_of(case)
-        return (D is not None and D.denominator == 1 and D >= 1 and len(case["ts"]) == len(case["xs"])
+        return (D is not None and D > 0 and len(case["ts"]) == len(case["xs"])
                 and unfr(case["st"]) >= 0 and unfr(case["ft"]) >= 0)
 
 
@@ -240,13 +240,15 @@ def gen_flat(tier, rng):
 
 
 def gen_flat_fractional(tier, rng):
-    """regular axes whose step is NOT a whole number of seconds (1.5 s, 2.5 s): the property uses
-    k = floor(threshold / D) with the true D, the implementation floors D to whole seconds first.
-    Compare the implementation with property_expected(case)."""
+    """regular axes whose step is NOT a whole number of seconds (1.5 s, 2.5 s) or is below one second (0.25, 0.5,
+    0.75 s): the property uses k = floor(threshold / D) with the true D (before the repair of F18 the
+    implementation floored D to whole seconds first, and divided by zero below one second).  Steps and
+    durations are dyadic, so that the float quotient threshold / D is exact.
+    Compared with the model (in domain) and with property_expected(case)."""
     cases = []
     total = 100 if tier == "quick" else 1000
     while len(cases) < total:
-        step_ns = rng.choice([3 * NS // 2, 5 * NS // 2])
+        step_ns = rng.choice([3 * NS // 2, 5 * NS // 2, NS // 4, NS // 2, 3 * NS // 4])
         D = F(step_ns, NS)
         n = rng.randint(4, 8)
         ks, kf = rng.randint(1, 3), rng.randint(1, 5)
@@ -255,7 +257,7 @@ def gen_flat_fractional(tier, rng):
         st = rng.choice([ks * D, ks * D + F(1, 2), F((ks * D).__floor__()), F(rng.randint(0, 8))])
         ft = rng.choice([kf * D, kf * D + F(1, 2), F((kf * D).__floor__()), F(rng.randint(0, 12))])
         ts = [T0 * NS + i * step_ns for i in range(n)]
-        c = mk(xs, ts, st, ft, rng.choice([F(1, 64), F(1, 2), F(2)]), dom=False)
+        c = mk(xs, ts, st, ft, rng.choice([F(1, 64), F(1, 2), F(2)]), dom=True)
         c["fractional"] = True
         cases.append(c)
     return cases
